@@ -428,9 +428,21 @@ def _compress_tiles(
             return (src_data_name, 0, y, x)
         return (src_data_name, s, y, x)
 
+    # tiles that lie entirely within the padding have no source block: compress an empty one
+    ny_src, nx_src = data.numblocks[src_ydim : src_ydim + 2]
+    empty_shape = tuple(
+        0 if src_ydim <= dim < src_ydim + 2 else n for dim, n in enumerate(data.shape)
+    )
+    if meta.axis == "SYX" and data.ndim == 3:
+        empty_shape = (1, 0, 0)
+
     dsk: Any = {}
     for i, (s, y, x) in enumerate(meta.tidx(sample_idx)):
-        block = block_name(s, y, x)
+        block: Any
+        if y < ny_src and x < nx_src:
+            block = block_name(s, y, x)
+        else:
+            block = (np.empty, quote(empty_shape), data.dtype)
         dsk[name, i] = (_compress_cog_tile, encoder, block, quote((scale_idx, s, y, x)))
 
     nparts = len(dsk)
